@@ -223,6 +223,54 @@ fn run_cases_through_macro(ctx: &Ctx, envir: &Envir, cases: &[&Case]) {
     let mut envir2 = Envir { prelude: format!("{}.macro ev\n\t.dq @0\n.endm\n", envir.prelude), epilogue: envir.epilogue.clone(), env: envir.env.clone(), syms: envir.syms.clone(), pc_base: envir.pc_base };
     envir2.pc_base = envir.pc_base;
     let usable: Vec<&&Case> = cases.iter().filter(|c| matches!(c.exp, Expected::Value(_)) && !c.text.to_lowercase().contains("pc") && !c.text.to_lowercase().contains("lbl_after")).collect();
+    // the argument handed on to a second macro, and used as one operand of a larger expression: it
+    // keeps the value the caller wrote (2 * @0 is twice that value, whatever the argument's own operators)
+    envir2.prelude.push_str(".macro ev_outer\n\tev_inner @0\n.endm\n.macro ev_inner\n\t.dq @0\n.endm\n.macro ev_twice\n\t.dq 2 * @0\n.endm\n.macro ev_outer_twice\n\tev_inner 2 * @0\n.endm\n.macro ev_outer_minus\n\tev_inner 0 - @0\n.endm\n");
+    for (mac, what) in [("ev_outer", "handed-on"), ("ev_twice", "as-operand"), ("ev_outer_twice", "handed-on-as-operand"), ("ev_outer_minus", "handed-on-negated")] {
+        for chunk in usable.chunks(24) {
+            let want = |c: &Case| -> Option<i64> {
+                match (&c.exp, mac) {
+                    (Expected::Value(v), "ev_twice") | (Expected::Value(v), "ev_outer_twice") => if v.unsigned_abs() < (1u64 << 62) { Some(2 * *v) } else { None },
+                    (Expected::Value(v), "ev_outer_minus") => if *v != i64::MIN { Some(-*v) } else { None },
+                    (Expected::Value(v), _) => Some(*v),
+                    _ => None,
+                }
+            };
+            let chunk: Vec<&&&Case> = chunk.iter().filter(|c| want(c).is_some()).collect();
+            if chunk.is_empty() {
+                continue;
+            }
+            let mut src = envir2.prelude.clone();
+            for c in &chunk {
+                src.push_str(&format!("\t{} {}\n", mac, c.text));
+            }
+            src.push_str(&envir2.epilogue);
+            let out = fw::build_str(&src);
+            ctx.eval(chunk.len() as u64);
+            ctx.count(&format!("expressions_through_macro_argument_{}", what), chunk.len() as u64);
+            let ok = match &out {
+                Outcome::Ok(b) => chunk.iter().enumerate().all(|(i, c)| qword_at(&b.code, &envir2, i) == want(c)),
+                _ => false,
+            };
+            if !ok {
+                for c in &chunk {
+                    let src1 = format!("{}\t{} {}\n{}", envir2.prelude, mac, c.text, envir2.epilogue);
+                    let o = fw::build_str(&src1);
+                    let v = match &o {
+                        Outcome::Ok(b) => qword_at(&b.code, &envir2, 0),
+                        _ => None,
+                    };
+                    if v != want(c) {
+                        ctx.violation(
+                            format!("expr/macro-argument-{}/{}/wrong-value", what, c.e.root_name()),
+                            format!("`{}` as argument of `{}`: expected {:?}, observed {}", fw::clip(&c.text, 100), mac, want(c), match (&o, v) { (Outcome::Ok(_), Some(v)) => format!("{}", v), (o, _) => o.kind().to_string() }),
+                            json!({"source": src1, "expression": c.text, "expected_value": want(c), "through_macro": what, "qword_word_addr": envir2.pc_base, "observed": o.brief()}),
+                        );
+                    }
+                }
+            }
+        }
+    }
     for chunk in usable.chunks(24) {
         let mut src = envir2.prelude.clone();
         for c in chunk {
@@ -495,14 +543,14 @@ fn count_ops(e: &E, m: &mut std::collections::BTreeMap<String, u64>) {
 }
 
 pub fn replay(ctx: &Ctx, case: &Value) -> i32 {
-    if case["through_macro"].as_bool() == Some(true) {
+    if case["through_macro"].as_bool() == Some(true) || case["through_macro"].is_string() {
         // stored program + expected set in debug form: only single values are replayable
         let src = case["source"].as_str().unwrap_or("");
         let out = fw::build_str(src);
         ctx.eval(1);
         ctx.distinct(1);
         ctx.distinct(2);
-        let want = case["expected"].as_str().and_then(|e| e.strip_prefix("Value(")).and_then(|e| e.strip_suffix(')')).and_then(|e| e.parse::<i64>().ok());
+        let want = case["expected_value"].as_i64().or_else(|| case["expected"].as_str().and_then(|e| e.strip_prefix("Value(")).and_then(|e| e.strip_suffix(')')).and_then(|e| e.parse::<i64>().ok()));
         let off = case["qword_word_addr"].as_u64().unwrap_or(0) as usize * 2;
         let got = match &out {
             Outcome::Ok(b) => b.code.get(off..off + 8).map(|x| i64::from_le_bytes(x.try_into().unwrap())),
